@@ -11,6 +11,7 @@ that shape changes, the decorator lists are read from the source with `ast` inst
 import ast
 import inspect
 import os
+import re
 
 from harness.lib import common
 
@@ -125,8 +126,7 @@ def render():
             "true" if cfg else "false", "," if i + 1 < len(reg) else ""))
     lines += ["]", ""]
     # interned copy: kernel evaluation of the table obligations compares numbers, not strings
-    syms = sorted(set([p.lhs for p in ps] + [s for p in ps for s in p.rhs]
-                      + [p.lhs for p, _, _ in reg] + [s for p, _, _ in reg for s in p.rhs]))
+    syms = symbols_sorted()
     sid = {s: i for i, s in enumerate(syms)}
     lines += ["/-- Every grammar symbol once (sorted); `formattersN` refers to symbols by index. -/",
               "def symbols : List String := ["]
@@ -143,13 +143,132 @@ def render():
     return "\n".join(lines)
 
 
+SPEC = os.path.join(common.LEAN, "Emboss", "Spec", "Fmt.lean")
+OUT_GLUE = os.path.join(common.LEAN, "Emboss", "Generated", "FmtGlue.lean")
+
+
+def symbols_sorted():
+    ps = grammar_productions()
+    reg = registry()
+    return sorted(set([p.lhs for p in ps] + [s for p in ps for s in p.rhs]
+                      + [p.lhs for p, _, _ in reg] + [s for p, _, _ in reg for s in p.rhs]))
+
+
+def lean_unescape(lit):
+    return re.sub(r"\\(.)", lambda m: {"n": "\n", "t": "\t"}.get(m.group(1), m.group(1)), lit)
+
+
+def glue_tables():
+    """Candidate tables for the separability certificate: nullable symbols, FIRST and LAST terminal
+    sets of every nonterminal, and the symbols whose rendering always starts with a blank, computed
+    here from the live registry (symbols as indices into `symbols`).  Nothing is trusted: the
+    kernel checks that the tables are closed under the grammar's rules (`glueCertOK`)."""
+    reg = registry()
+    sid = {sname: i for i, sname in enumerate(symbols_sorted())}
+    prods = [(sid[p.lhs], [sid[x] for x in p.rhs], name) for p, name, _cfg in reg]
+    nonterm = set(l for l, _, _ in prods)
+    ns = set()
+    changed = True
+    while changed:
+        changed = False
+        for l, rhs, _ in prods:
+            if l not in ns and all(x in ns for x in rhs):
+                ns.add(l)
+                changed = True
+
+    def edges(rev):
+        m = {l: set() for l in nonterm}
+        changed = True
+        while changed:
+            changed = False
+            for l, rhs, _ in prods:
+                for x in (reversed(rhs) if rev else rhs):
+                    new = m[x] if x in nonterm else {x}
+                    if not new <= m[l]:
+                        m[l] |= new
+                        changed = True
+                    if x not in ns:
+                        break
+        return m
+    fs, ls = edges(False), edges(True)
+    lead = set(nonterm)
+
+    def ok_seq(rhs):
+        for x in rhs:
+            if x not in lead:
+                return False
+            if x not in ns:
+                return True
+        return True
+
+    def ok_entry(rhs, name):
+        if name in ("_concatenate_with_prefix_spaces", "_empty_string"):
+            return True
+        if name in ("_concatenate", "_identity"):
+            return ok_seq(rhs)
+        return False
+    changed = True
+    while changed:
+        changed = False
+        for sname in sorted(lead):
+            if not all(ok_entry(rhs, name) for l, rhs, name in prods if l == sname):
+                lead.discard(sname)
+                changed = True
+    return sorted(ns), fs, ls, sorted(lead)
+
+
+def render_glue():
+    """Generated/FmtGlue.lean: the certificate tables, and an interned copy of the audited list
+    `allowedGlued` of Spec/Fmt.lean (position by position; `none` where a symbol no longer
+    exists).  The kernel checks that every entry decodes to the entry of `allowedGlued` at the
+    same position (`alignedOK`)."""
+    text = open(SPEC).read()
+    start = text.index("def allowedGlued : List (String × String) := [")
+    end = text.index("\n]", start)
+    pairs = re.findall(r'\("((?:[^"\\]|\\.)*)",\s*"((?:[^"\\]|\\.)*)"\)', text[start:end])
+    sid = {sname: i for i, sname in enumerate(symbols_sorted())}
+    ns, fs, ls, lead = glue_tables()
+
+    def table(m):
+        return lean_list(["(%d, %s)" % (k, lean_list([str(x) for x in sorted(m[k])])) for k in sorted(m)])
+    lines = ["/-",
+             "REGENERATED on every run by harness/translate/fmt_table.py from the live registry of",
+             "format_emb.py and from `allowedGlued` of Emboss/Spec/Fmt.lean (symbols as indices into",
+             "`Emboss.Generated.FmtTable.symbols`).  Do not edit.  Nothing here is trusted: see",
+             "`C11_render_separable`.",
+             "-/",
+             "namespace Emboss.Generated.FmtGlue",
+             "",
+             "/-- Symbols that can derive the empty token sequence. -/",
+             "def nsN : List Nat := %s" % lean_list([str(x) for x in ns]),
+             "",
+             "/-- FIRST terminals of every nonterminal. -/",
+             "def fsN : List (Nat × List Nat) := %s" % table(fs),
+             "",
+             "/-- LAST terminals of every nonterminal. -/",
+             "def lsN : List (Nat × List Nat) := %s" % table(ls),
+             "",
+             "/-- Nonterminals whose rendering, when non-empty, always begins with a blank. -/",
+             "def leadN : List Nat := %s" % lean_list([str(x) for x in lead]),
+             "",
+             "def allowedGluedN : List (Option (Nat × Nat)) := ["]
+    for i, (a, b) in enumerate(pairs):
+        a, b = lean_unescape(a), lean_unescape(b)
+        item = "some (%d, %d)" % (sid[a], sid[b]) if a in sid and b in sid else "none"
+        lines.append("  %s%s" % (item, "," if i + 1 < len(pairs) else ""))
+    lines += ["]", "", "end Emboss.Generated.FmtGlue", ""]
+    return "\n".join(lines)
+
+
 def production_index():
     """{Production: index into `formatters`} for the tree serialiser."""
     return {p: i for i, (p, _n, _c) in enumerate(registry())}
 
 
 def regenerate():
-    return common.write_if_changed(OUT, render())
+    a = common.write_if_changed(OUT, render())
+    b = common.write_if_changed(OUT_GLUE, render_glue())
+    return a or b
 
 
 if __name__ == "__main__":
